@@ -1319,7 +1319,9 @@ class _AlwaysSortable(object):
         self.value = value
 
     def sortable_value(self):
-        return (str(type(self)), id(self))
+        # Of the wrapped value (as pprint's _safe_key does), not of this
+        # wrapper: the wrappers are created anew for every sort.
+        return (str(type(self.value)), id(self.value))
 
     def __lt__(self, other):
         try:
